@@ -4783,6 +4783,9 @@ def container_script_repr(container,imports,prefix,settings):
         d1,d2='(',')'
     else:
         raise NotImplementedError
+    if isinstance(container,tuple) and len(result)==1:
+        # a one-element tuple needs its trailing comma: (1) is not a tuple
+        result[0] += ','
     rep=d1+','.join(result)+d2
 
     # no imports to add for built-in types
@@ -4805,6 +4808,12 @@ def function_script_repr(fn,imports,prefix,settings):
     imports.append('import %s'%module)
     return module+'.'+name
 
+def float_script_repr(val,imports,prefix,settings):
+    # repr() of non-finite floats (inf, -inf, nan) is not evaluable
+    if val != val or val in (float('inf'), float('-inf')):
+        return "float('%r')" % val
+    return repr(val)
+
 def type_script_repr(type_,imports,prefix,settings):
     module = type_.__module__
     if module!='__builtin__':
@@ -4814,6 +4823,7 @@ def type_script_repr(type_,imports,prefix,settings):
 script_repr_reg[list] = container_script_repr
 script_repr_reg[tuple] = container_script_repr
 script_repr_reg[FunctionType] = function_script_repr
+script_repr_reg[float] = float_script_repr
 
 
 #: If not None, the value of this Parameter will be called (using '()')
